@@ -26,6 +26,7 @@ EXPLANATION += ' C17.R1 also requires RemoveCallback to compare every field AddC
 ROUND2_EXPLANATION = (' C17.R8: every local of an ObserverResult type used in the callback loop of ObservableRegistry::Observe is created inside the iteration that uses it (strict). Shared C06.R9: folding accumulates.')
 ROUND2_EXPLANATION += (' C17.R4 also: the value stored into the per-collector delta table is the result of the Diff call itself, not one of its operands.')
 ROUND2_EXPLANATION += (" C17.R4 also: every method of AsyncMetricStorage touches the cumulative / delta table members only while holding the storage lock; in Record's loop every table lookup / update is keyed by the iteration element's own attributes and Aggregate receives its own value. C17.R5 folds a helper that computes the monotonicity flag under the pinned instrument type.")
+ROUND2_EXPLANATION += (' C17.R4 also (decision table of the typed record entries): every effect of RecordLong / RecordDouble of the sync and async storages lies behind value_type_ == kLong / kDouble.')
 EXPLANATION += ROUND2_EXPLANATION
 NOT_DECIDED = 'numeric deltas across readers over arbitrary histories.'
 
@@ -299,6 +300,53 @@ def rule_r4_tables(ck, prog, rule='C17.R4', cls='sdk::metrics::AsyncMetricStorag
             continue
         ck.verdict(bad is None, rule, f, site, bad[0] if bad else loops[0], 'every table access in the loop uses the element\'s own key, Aggregate its own value (%d sites)' % cnt if bad is None else
                    'AsyncMetricStorage::Record: %s: totals of one attribute set are compared with / stored under another' % bad[1])
+
+
+def rule_r4_value_type_gate(ck, prog, rule='C17.R4'):
+    """decision table of the typed record entries: RecordLong has an effect only when the instrument's value type is kLong,
+    RecordDouble only when it is kDouble (sync and async storage): every aggregation / Record<T> call lies behind the matching
+    outcome of the comparison of value_type_ with that enumerator"""
+    cnt = 0
+    for cls in ('sdk::metrics::AsyncMetricStorage', 'sdk::metrics::SyncMetricStorage'):
+        rec = prog.record(cls)
+        for f in sorted([x for x in prog.funcs.values() if x.cls == rec['qn'] and x.name in ('RecordLong', 'RecordDouble') and x.blocks], key=lambda x: (x.line, x.key)):
+            want = 'kLong' if f.name == 'RecordLong' else 'kDouble'
+            g = Graph(prog, f, inline=None, sync_lambdas=False)
+            eff = [p for p in g.points if p.n is not None and p.f is f and p.n['k'] == 'call' and
+                   (strip_targs(p.n.get('c', '')).rsplit('::', 1)[-1] in ('Aggregate', 'Record', 'GetOrSetDefault') or
+                    (p.n.get('ck') in prog.funcs and prog.funcs[p.n['ck']].cls == f.cls and not p.n.get('cconst') and 'bool' not in (p.n.get('t') or '')))]
+            if not eff:
+                continue
+            cnt += 1
+
+            def gate(a, b, lab, _w=want):
+                if not lab or not isinstance(lab[0], int) or lab[1] is not f:
+                    return False
+                core, pol = norm_cond(f, lab[0])
+                c = comparison(f, core)
+                if not c or c[0] not in ('==', '!='):
+                    return False
+                sides = [strip_casts(f, c[1]), strip_casts(f, c[2])]
+                mem = [x for x in sides if x['k'] == 'member' and 'InstrumentValueType' in (x.get('t') or '')]
+                lit = [x for x in sides if x.get('sk') == 'enum' and 'InstrumentValueType' in (x.get('qn') or x.get('t') or '')]
+                if not mem or not lit:
+                    return False
+                is_want = (lit[0].get('qn') or lit[0].get('name') or '').endswith(_w)
+                eq = (lab[2] if pol else not lab[2]) is (c[0] == '==')
+                return eq if is_want else False
+            ok = all(g.must_pass_edge(p, gate) for p in eff)
+            if not ok:
+                sw = [b['t']['cnd'] for b in f.blocks if b.get('t') and b['t']['k'] == 'SwitchStmt' and 'InstrumentValueType' in (strip_casts(f, b['t']['cnd']).get('t') or '')]
+                helper = [n for n in f.nodes if n['k'] == 'call' and n.get('ck') in prog.funcs and prog.funcs[n['ck']].cls == f.cls and 'bool' in (n.get('t') or '')]
+                if sw or helper:
+                    ck.inconclusive(rule, f, 'value-type-gate:%s::%s(%d params)' % (cls.rsplit('::', 1)[-1], f.name, len(f.params)), eff[0].n,
+                                    'the value type is tested by a switch / a helper predicate: not decided')
+                    continue
+            ck.verdict(ok, rule, f, 'value-type-gate:%s::%s(%d params)' % (cls.rsplit('::', 1)[-1], f.name, len(f.params)), eff[0].n,
+                       '%s records only behind value_type_ == %s' % (f.name, want) if ok else
+                       '%s::%s records although the instrument\'s value type is not shown to be %s: measurements of the other type are aggregated as this one (or measurements of this type are dropped)' % (cls.rsplit('::', 1)[-1], f.name, want))
+    if cnt < 1:
+        raise AnalysisBroken('C17.R4: typed record entries of the metric storages not found (%d)' % cnt)
 
 
 def rule_r4(ck, prog, rule='C17.R4'):
@@ -666,6 +714,7 @@ def run(ck, prog):
     c06.rule_r1_fields(ck, prog, 'sdk::metrics::DoubleLastValueAggregation', ['point_data_'], rule='C17.R3')
     rule_r4(ck, prog)
     rule_r4_tables(ck, prog)
+    rule_r4_value_type_gate(ck, prog)
     rule_r1_identity(ck, prog)
     rule_r5(ck, prog)
     rule_r6(ck, prog)
